@@ -847,7 +847,6 @@ Example C06_remove_after_refinement_instance :
    eqLQ (c_U cI) (snd QV) = true /\ eqLLQ (c_P cI) (fst QV) = true).
 Proof. cbv zeta. repeat split; vm_compute; congruence. Qed.
 
-
 (* ====================== TRANSLATOR TIE (Proofs/GenTie*.v) ======================
    coq/Gen/*.v is the Gallina rendering of the Python source produced by harness/pytrans.py; every run of ./check regenerates it
    from /repo and compares it function by function with the committed text (evidence: translator_tie).  The theorems below say
